@@ -40,6 +40,7 @@ type c10Scenario struct {
 	LatencyNs          int64      `json:"latency_ns"`
 	ResumeDropFirst    bool       `json:"first_resumption_attempt_loses_its_connection,omitempty"` // with loss_and_resumption_at_the_end: the connection of the first attempt breaks while the answer to <resume/> is awaited
 	ResumeAtEnd        bool       `json:"loss_and_resumption_at_the_end,omitempty"`                // the session is lost and resumed; <resumed/> repeats the last acknowledged h
+	RawExtras          bool       `json:"raw_white_space_and_two_stanza_strings,omitempty"`        // among the sends: SendRaw of white space (not a stanza) and of a string with two stanzas (two stanzas)
 }
 
 func init() {
@@ -56,6 +57,7 @@ func init() {
 func runC10(e *Engine, g G, o RunOpt) RunInfo {
 	sc := &c10Scenario{Client: DefaultClientOpts()}
 	sc.Client.SM = true
+	sc.RawExtras = !o.Avoiding("raw-string-not-one-stanza") && g.Pct("raw-extras", 35)
 	sc.Client.SMResume = true
 	if g.Pct("after-refused-resume", 20) {
 		sc.AfterRefusedResume = g.Range("old-held", 1, 4)
@@ -185,13 +187,39 @@ func runC10(e *Engine, g G, o RunOpt) RunInfo {
 			return nil, nil
 		}
 		for _, u := range q.Uslice {
-			raws = append(raws, u.Stz)
+			// what is held is compared stanza by stanza: a raw string may carry several
+			parts := []string{u.Stz}
+			if its, err := splitAllFramed([]byte(u.Stz)); err == nil {
+				var els []string
+				for _, it := range its {
+					if it.Kind == ItemElem {
+						els = append(els, string(it.Raw))
+					}
+				}
+				if len(els) > 1 {
+					parts = els
+				}
+			}
+			for range parts[1:] {
+				ids = append(ids, u.Id-1) // (never compared: only the last part carries the entry's number)
+			}
+			raws = append(raws, parts...)
 			ids = append(ids, u.Id)
 		}
 		return raws, ids
 	}
+	entryIds := func() []int {
+		var ids []int
+		if q := s.W.Client.Session.SMState.UnAckQueue; q != nil {
+			for _, u := range q.Uslice {
+				ids = append(ids, u.Id)
+			}
+		}
+		return ids
+	}
 	checkQueue := func(when string) {
-		raws, ids := queue()
+		raws, _ := queue()
+		ids := entryIds()
 		for i := 1; i < len(ids); i++ {
 			if ids[i] <= ids[i-1] {
 				e.Violate("C10", "sequence-numbers-not-increasing", "%s: queue sequence numbers %v", when, ids)
@@ -201,6 +229,10 @@ func runC10(e *Engine, g G, o RunOpt) RunInfo {
 		for _, r := range raws {
 			if isSMElementRaw(r) {
 				e.Violate("C10", "sm-element-held", "%s: a stream-management element is held for retransmission: %s", when, clip(r, 120))
+				return
+			}
+			if strings.TrimSpace(r) == "" {
+				e.Violate("C10", "whitespace-held", "%s: white space sent through SendRaw (a keepalive, not a stanza: no server counts it) is held and numbered like a stanza: %q", when, r)
 				return
 			}
 		}
@@ -216,7 +248,8 @@ func runC10(e *Engine, g G, o RunOpt) RunInfo {
 	// nothing that cannot have been acknowledged is dropped, nothing is held
 	// twice, numbering stays increasing, no SM element is held
 	checkRace := func(when string) {
-		raws, ids := queue()
+		raws, _ := queue()
+		ids := entryIds()
 		for i := 1; i < len(ids); i++ {
 			if ids[i] <= ids[i-1] {
 				e.Violate("C10", "sequence-numbers-not-increasing", "%s: queue sequence numbers %v", when, ids)
@@ -341,6 +374,18 @@ func runC10(e *Engine, g G, o RunOpt) RunInfo {
 							if api == "mixed" {
 								api = []string{"Send", "SendRaw"}[n%2]
 							}
+							second := ""
+							if sc.RawExtras && n%7 == 6 {
+								// an application keepalive: white space is not a stanza, no server counts it
+								e.Call("SendRaw white space", func() error { return cli.SendRaw([]string{" ", "\n", " \t "}[n%3]) })
+								e.Probe("c10.raw_whitespace_sent")
+							}
+							if sc.RawExtras && n%9 == 5 {
+								// two stanzas in one raw string are two stanzas: the server counts both
+								api = "SendRaw"
+								second = fmt.Sprintf("<message id='%sb' to='peer@%s'><body>second of a pair</body></message>", id, SimDomain)
+								e.Probe("c10.raw_string_with_two_stanzas")
+							}
 							var payload string
 							var err error
 							if api == "Send" {
@@ -349,12 +394,17 @@ func runC10(e *Engine, g G, o RunOpt) RunInfo {
 								err, _ = e.Call("Send "+id, func() error { return cli.Send(msg) })
 							} else {
 								payload = raw
-								err, _ = e.Call("SendRaw "+id, func() error { return cli.SendRaw(raw) })
+								err, _ = e.Call("SendRaw "+id, func() error { return cli.SendRaw(raw + second) })
 							}
 							if err == nil {
 								nAccepted++
 								accepted[payload] = nAccepted
 								acceptOrder = append(acceptOrder, payload)
+								if second != "" {
+									nAccepted++
+									accepted[second] = nAccepted
+									acceptOrder = append(acceptOrder, second)
+								}
 							}
 							if st.Op == "race" {
 								e.Sleep(time.Millisecond)
